@@ -1067,6 +1067,10 @@ def _const_value(v):
         return v
     if isinstance(v, (ast.Tuple, ast.List, ast.Set)) and v.elts and all(isinstance(e, ast.Constant) for e in v.elts):
         return ast.Tuple(elts=list(v.elts), ctx=ast.Load())
+    if isinstance(v, ast.Call) and isinstance(v.func, ast.Attribute) and v.func.attr == "split" and isinstance(v.func.value, ast.Constant) and isinstance(v.func.value.value, str) and not v.keywords and all(isinstance(a, ast.Constant) and isinstance(a.value, str) for a in v.args) and len(v.args) <= 1:
+        # "A B C".split(): a word list written as one literal
+        parts = v.func.value.value.split(*[a.value for a in v.args])
+        return ast.Tuple(elts=[ast.Constant(value=p_) for p_ in parts], ctx=ast.Load()) if parts else None
     if isinstance(v, ast.Call) and isinstance(v.func, ast.Name) and v.func.id in ("frozenset", "set", "tuple") and len(v.args) == 1 and not v.keywords:
         return _const_value(v.args[0]) if isinstance(v.args[0], (ast.Tuple, ast.List, ast.Set)) else None
     return None
